@@ -142,6 +142,7 @@ fn single_field_sweep(bits64: bool, section_only: bool) -> Vec<Item> {
         vaddr_bias: 0,
         data_pages: 1,
         empty_first_note: false,
+        text_skew: 0,
     };
     let built = elf::build(&spec);
     let mut out = Vec::new();
